@@ -29,21 +29,42 @@ def _views(O, eng, fn, entries_field=1):
     return idx, bits, entry, inb, env, ei
 
 
+def _want(bits, n):
+    return s64(n & ((1 << bits) - 1)) if bits < 64 else s64(n)
+
+
 def _scenario_input(bits, n):
-    return Scenario("A\n(%s)\n" % lit(n), [("in", "A", bits, 0)], note="input path bits=%d n=%d" % (bits, n))
+    """Family of public-API scenarios driving program value n into an input signal of the given width: alone,
+    after an output in the signal list, among inputs of other widths, and as a bidirectional signal."""
+    w = str(_want(bits, n))
+    ob = 8 if bits != 8 else 5
+    out = []
+    out.append(Scenario("A\n(%s)\n" % lit(n), [("in", "A", bits, 0)], expect={"sig": "A", "want": w},
+                        note="input path bits=%d n=%d" % (bits, n)))
+    out.append(Scenario("A Y\n(%s) X\n" % lit(n), [("out", "Y", 3), ("in", "A", bits, 0)], default_answer=[0],
+                        expect={"sig": "A", "want": w}, note="output listed before the input"))
+    out.append(Scenario("B A Y\n(%s) (%s) X\n" % (lit(n), lit(n)),
+                        [("out", "Y", 3), ("in", "B", ob, 0), ("out", "Q", 2), ("in", "A", bits, 0)], default_answer=[0, 0],
+                        expect={"sig": "A", "want": w, "sig2": "B", "want2": str(_want(ob, n))},
+                        note="mixed widths and directions"))
+    out.append(Scenario("A A_out\n(%s) X\n" % lit(n), [("bidir", "A", bits, "Z")], default_answer=[0],
+                        expect={"sig": "A", "want": w}, note="bidirectional"))
+    return out
 
 
 def _judge_input(bits, n):
-    want = s64(n & ((1 << bits) - 1)) if bits < 64 else s64(n)
-
     def chk(o, sc):
         if not o.ok("NEW") or len(o.calls) < 2:
             return "row was not delivered to the driver: %s" % o.lines[-3:]
-        got = o.calls[1][2][0][1]
-        if got != str(want):
-            return "driver received %s for a %d-bit signal, program value %d, expected %d" % (got, bits, n, want)
-        if o.rows and o.rows[0]["inputs"][0][1] != str(want):
-            return "row reports input %s, expected %d" % (o.rows[0]["inputs"][0][1], want)
+        for key, wkey in (("sig", "want"), ("sig2", "want2")):
+            if key not in sc.expect:
+                continue
+            got = dict((nm, v) for nm, v, _, _ in o.calls[1][2]).get(sc.expect[key])
+            if got != sc.expect[wkey]:
+                return "driver received %s=%s, program value %d, expected %s (%s)" % (
+                    sc.expect[key], got, n, sc.expect[wkey], sc.note)
+            if o.rows and dict((nm, v) for nm, v, _ in o.rows[0]["inputs"]).get(sc.expect[key]) != sc.expect[wkey]:
+                return "row reports input %s differently from the reference %s" % (sc.expect[key], sc.expect[wkey])
         return None
     return no_panic_judge(chk)
 
@@ -76,13 +97,10 @@ def input_mask(O):
 
     def scen(mod):
         b, v = mval(mod, bits, False), mval(mod, n)
-        return [_scenario_input(b, v)]
+        return _scenario_input(b, v)
 
     def judge(obs, sc):
-        b = sc.signals[0][2]
-        import re
-        v = eval_lit(sc.source.split("\n")[1])
-        return _judge_input(b, v)(obs, sc)
+        return _judge_input(0, 0)(obs, sc)
 
     rets = [p for p in paths if p.outcome == "return"]
     O.witness(rets, "Entry/Number return path", cls_num)
@@ -114,19 +132,47 @@ def eval_lit(text):
 
 
 def _scenario_expected(bits, n):
-    return Scenario("A Y\n0 (%s)\n" % lit(n), [("in", "A", 1, 0), ("out", "Y", bits)], default_answer=[0],
-                    note="expected path bits=%d n=%d" % (bits, n))
+    w = str(_want(bits, n))
+    out = []
+    out.append(Scenario("A Y\n0 (%s)\n" % lit(n), [("in", "A", 1, 0), ("out", "Y", bits)], default_answer=[0],
+                        expect={"sig": "Y", "want": w}, note="expected path bits=%d n=%d" % (bits, n)))
+    out.append(Scenario("Y A\n(%s) 0\n" % lit(n), [("out", "Y", bits), ("in", "A", 1, 0)], default_answer=[0],
+                        expect={"sig": "Y", "want": w}, note="output listed first"))
+    ob = 8 if bits != 8 else 5
+    out.append(Scenario("A Q Y\n0 (%s) (%s)\n" % (lit(n), lit(n)),
+                        [("out", "Q", ob), ("in", "A", 1, 0), ("out", "Y", bits)], default_answer=[0, 0],
+                        expect={"sig": "Y", "want": w, "sig2": "Q", "want2": str(_want(ob, n))}, note="two outputs"))
+    out.append(Scenario("D D_out\nZ (%s)\n" % lit(n), [("bidir", "D", bits, "Z")], default_answer=[0],
+                        expect={"sig": "D", "want": w}, note="bidirectional expected"))
+    out += _scenario_virtual(n)
+    return out
+
+
+def _scenario_virtual(n):
+    """virtual signals are 64 bits wide whatever they are computed from"""
+    w = str(s64(n))
+    return [Scenario("A V\ndeclare V = 0;\n0 (%s)\n" % lit(n), [("in", "A", 1, 0)], expect={"sig": "V", "want": w},
+                     note="virtual constant"),
+            Scenario("A Q V W\ndeclare V = Q;\ndeclare W = Q + 1;\n0 X (%s) (%s)\n" % (lit(n), lit(n)),
+                     [("in", "A", 1, 0), ("out", "Q", 8)], default_answer=[1],
+                     expect={"sig": "V", "want": w, "sig2": "W", "want2": w}, note="virtual alias of a narrow output")]
 
 
 def _judge_expected(bits, n):
-    want = s64(n & ((1 << bits) - 1)) if bits < 64 else s64(n)
-
     def chk(o, sc):
         if not o.rows:
             return "no row produced: %s" % o.lines[-3:]
-        got = o.rows[0]["outputs"][0][1]
-        if got != str(want):
-            return "row reports expected %s for a %d-bit signal, program value %d, reference %d" % (got, bits, n, want)
+        for d in o.signals:
+            name, b, kind = d.split(":", 2)
+            if kind.startswith("virtual") and b != "64":
+                return "virtual signal %s has width %s" % (name, b)
+        for key, wkey in (("sig", "want"), ("sig2", "want2")):
+            if key not in sc.expect:
+                continue
+            got = dict((nm, e) for nm, e, _, _, _ in o.rows[0]["outputs"]).get(sc.expect[key])
+            if got != sc.expect[wkey]:
+                return "row reports expected %s=%s, program value %d, reference %s (%s)" % (
+                    sc.expect[key], got, n, sc.expect[wkey], sc.note)
         return None
     return no_panic_judge(chk)
 
@@ -150,12 +196,10 @@ def expected_mask(O):
         return {"bits": mval(mod, bits, False), "n": mval(mod, n), "path": "expected"}
 
     def scen(mod):
-        return [_scenario_expected(mval(mod, bits, False), mval(mod, n))]
+        return _scenario_expected(mval(mod, bits, False), mval(mod, n))
 
     def judge(obs, sc):
-        b = sc.signals[1][2]
-        v = eval_lit(sc.source.split("\n")[1].split(" ", 1)[1])
-        return _judge_expected(b, v)(obs, sc)
+        return _judge_expected(0, 0)(obs, sc)
 
     rets = [p for p in paths if p.outcome == "return"]
     for kind in ("Number", "Z", "X"):
@@ -206,7 +250,8 @@ def virtual_64(O):
             return None
         return no_panic_judge(chk)(obs, sc)
 
-    sc = [Scenario("A V\ndeclare V = 0;\n0 (0-1)\n", [("in", "A", 1, 0)])]
+    sc = _scenario_virtual(-1) + _scenario_virtual(0x1FF) + _scenario_virtual(1 << 40)
+    judge = lambda obs, s_: _judge_expected(0, 0)(obs, s_)
     for p in paths:
         if p.outcome == "return":
             b = eng.scalar(eng.field(p.ret, m.fidx("Signal", "bits"), "usize"))
